@@ -27,7 +27,7 @@ first failure; `qwg.Done` is deferred so that it runs after `setErr`); `false` i
 (the emitter `break`s after the first failure; `qwg.Done()` runs before `setErr`).
 
 Atomic actions are single channel operations, latch reads/writes (mutex), WaitGroup operations and `go`
-statements, except for these seven merges (each merged action is local to its goroutine or a left-/both-mover,
+statements, except for these seven merges (each merged action is local to its goroutine or a left-mover or both-mover,
 so no behaviour of the finer-grained program is lost):
 1. `bg.queue <- c; bg.qwg.Add(1); go c.writeBlock()` is one step (`wSub`, `cEnq` without the `go`);
 2. in `Flush` the receive from `waiting` and that enqueue are one step (`fSwap`);
